@@ -6,6 +6,8 @@ import (
 	"path/filepath"
 	"strings"
 
+	pq "github.com/segmentio/parquet-go"
+
 	"verifharness/lib"
 )
 
@@ -96,7 +98,106 @@ func writeDB(r *lib.Rng, dir string) (database, error) {
 	if err := os.WriteFile(filepath.Join(dir, "ev.csv"), []byte(b.String()), 0o644); err != nil {
 		return database{}, err
 	}
+	b.Reset()
+	// m.csv: quoted fields with embedded line breaks (one record spans several physical lines), read by queries that
+	// use only some, or none, of its columns
+	b.WriteString("id,note,v\n1,\"first line\nsecond line\",5\n")
+	for i, n := 0, 2+r.Intn(4); i < n; i++ {
+		note := words[r.Intn(len(words))]
+		if r.Bool() {
+			note = "\"" + note + "\n" + words[r.Intn(len(words))] + "\n\nend\""
+		}
+		fmt.Fprintf(&b, "%d,%s,%d\n", i+2, note, r.Intn(6))
+	}
+	b.WriteString("9,\"a, b\nc\",2\n")
+	if err := os.WriteFile(filepath.Join(dir, "m.csv"), []byte(b.String()), 0o644); err != nil {
+		return database{}, err
+	}
+	if err := writeParquet(r, filepath.Join(dir, "p.parquet")); err != nil {
+		return database{}, err
+	}
 	return database{dir: dir, hasNulls: true}, nil
+}
+
+// p.parquet: flat columns around nested (group) columns, each of which spans two leaf columns.  The vendored writer
+// orders the fields of a group by name: aid, box{h, w}, name, pos{lat, lon}, qty.
+func writeParquet(r *lib.Rng, path string) (err error) {
+	defer func() {
+		if p := recover(); p != nil {
+			err = fmt.Errorf("parquet writer panicked: %v", p)
+		}
+	}()
+	dbl := func() pq.Node { return pq.Required(pq.Leaf(pq.DoubleType)) }
+	schema := pq.Group{
+		"aid":  pq.Required(pq.Leaf(pq.Int64Type)),
+		"box":  pq.Required(pq.Group{"h": dbl(), "w": dbl()}),
+		"name": pq.Required(pq.String()),
+		"pos":  pq.Required(pq.Group{"lat": dbl(), "lon": dbl()}),
+		"qty":  pq.Required(pq.Leaf(pq.Int64Type)),
+	}
+	f, err := os.Create(path)
+	if err != nil {
+		return err
+	}
+	defer f.Close()
+	w := pq.NewWriter(f, pq.NewSchema("root", schema))
+	for i, n := 0, 3+r.Intn(5); i < n; i++ {
+		row := pq.Row{
+			pq.ValueOf(int64(i % 4)).Level(0, 0, 0),
+			pq.ValueOf(float64(i) + 0.5).Level(0, 0, 1),
+			pq.ValueOf(float64(10 + i)).Level(0, 0, 2),
+			pq.ValueOf(words[r.Intn(len(words))]).Level(0, 0, 3),
+			pq.ValueOf(float64(r.Intn(4)) + 0.25).Level(0, 0, 4),
+			pq.ValueOf(float64(20 + i)).Level(0, 0, 5),
+			pq.ValueOf(int64(r.Intn(6))).Level(0, 0, 6),
+		}
+		if err := w.WriteRow(row); err != nil {
+			return err
+		}
+	}
+	return w.Close()
+}
+
+// triggerGroupBy: a grouping subquery with an explicit TRIGGER clause (or none) computing three aggregates, of which
+// the outer query uses a subset: the unused ones sit before, between and after the used ones.
+func triggerGroupBy(r *lib.Rng, feat map[string]bool, variant int) string {
+	feat["trigger_group_by"] = true
+	trigger := []string{" TRIGGER COUNTING 2", " TRIGGER COUNTING 1", " TRIGGER ON END OF STREAM", " TRIGGER COUNTING 3, ON END OF STREAM", ""}[(variant/7)%5]
+	aggs := [][]string{
+		{"COUNT(*) AS c", "MAX(t.b) AS m", "SUM(t.b) AS sm"},
+		{"SUM(t.b) AS sm", "COUNT(*) AS c", "MAX(t.b) AS m"},
+		{"MAX(t.b) AS m", "SUM(t.b) AS sm", "COUNT(*) AS c"},
+	}[(variant/35)%3]
+	sub := fmt.Sprintf("(SELECT t.s AS x, %s FROM t.csv t GROUP BY t.s%s) q", strings.Join(aggs, ", "), trigger)
+	use := [][]string{{"q.m"}, {"q.sm"}, {"q.c"}, {"q.c", "q.m"}, {"q.c", "q.sm"}, {"q.m", "q.sm"}, {"q.sm", "q.c", "q.m"}}[variant%7]
+	return fmt.Sprintf("SELECT q.x, %s FROM %s", strings.Join(use, ", "), sub)
+}
+
+// columnFree: queries that read no column (or only a late column) of a file source
+func columnFree(r *lib.Rng, feat map[string]bool, variant int) string {
+	feat["column_free_or_sparse_source"] = true
+	files := []string{"m.csv m", "t.csv m", "p.parquet m", "l.json m"}
+	src := files[(variant/5)%len(files)]
+	switch variant % 5 {
+	case 0:
+		return "SELECT COUNT(*) AS c FROM " + src
+	case 1:
+		return "SELECT 1 AS one FROM " + src
+	case 2:
+		return "SELECT COUNT(*) AS c FROM " + src + " JOIN u.csv u ON 1 = 1"
+	case 3:
+		return "SELECT u.y, COUNT(*) AS c FROM " + src + " JOIN u.csv u ON 1 = 1 GROUP BY u.y"
+	default:
+		return "SELECT x.one FROM (SELECT 1 AS one FROM " + src + ") x"
+	}
+}
+
+// parquetQuery: selections that prune the nested columns in front of, between and behind the used ones
+func parquetQuery(r *lib.Rng, feat map[string]bool, variant int) string {
+	feat["parquet_nested"] = true
+	sel := []string{"p.name, p.qty", "p.qty", "p.aid", "p.aid, p.box", "p.name", "p.pos, p.qty", "p.aid, p.qty", "p.box, p.name"}[variant%8]
+	where := []string{"", " WHERE p.qty > 1", " WHERE p.aid < 3", " WHERE p.name <> 'a'"}[(variant/8)%4]
+	return fmt.Sprintf("SELECT %s FROM p.parquet p%s", sel, where)
 }
 
 // eventTimeQuery: max_diff_watermark -> tumble pipelines; tumble takes the implicit (watermarked) time field of its
@@ -183,7 +284,15 @@ func (g *qgen) fresh(prefix string) string {
 }
 
 func (g *qgen) baseTable() rel {
-	switch g.r.Intn(4) {
+	switch g.r.Intn(6) {
+	case 4:
+		a := g.fresh("p")
+		g.feat["parquet_nested"] = true
+		return rel{sql: "p.parquet " + a, cols: []col{{a + ".aid", "int", false}, {a + ".box", "list", false}, {a + ".name", "string", false}, {a + ".qty", "int", false}}}
+	case 5:
+		a := g.fresh("m")
+		g.feat["multiline_csv"] = true
+		return rel{sql: "m.csv " + a, cols: []col{{a + ".id", "int", false}, {a + ".note", "string", false}, {a + ".v", "int", false}}}
 	case 0:
 		a := g.fresh("t")
 		return rel{sql: "t.csv " + a, cols: []col{{a + ".a", "int", true}, {a + ".b", "int", false}, {a + ".s", "string", false}}}
@@ -477,6 +586,15 @@ func genQuery(r *lib.Rng) (string, map[string]bool) {
 		return guardedQuery(r, g.feat), g.feat
 	case 3:
 		return sharedSideJoin(r, g.feat), g.feat
+	case 4:
+		switch r.Intn(3) {
+		case 0:
+			return triggerGroupBy(r, g.feat, r.Intn(105)), g.feat
+		case 1:
+			return columnFree(r, g.feat, r.Intn(20)), g.feat
+		default:
+			return parquetQuery(r, g.feat, r.Intn(32)), g.feat
+		}
 	}
 	src := g.relation(1 + r.Intn(2))
 	var items []string
